@@ -191,6 +191,93 @@ class Files(es.E2EStream):
         return k
 
 
+def independent_seeds(rp, qp, extra):
+    """the candidates the property prescribes, recomputed outside the coordinator from the public components: for every query the top
+    peaksCount primary peaks over ALL references and BOTH strands (stable descending sort by peak score, references in reading order,
+    forward before reverse), each refined into its list of secondary peaks"""
+    from src.args import Args
+    from src.parsers.cmap_reader import CmapReader
+    from src.correlation.sequence_generator import SequenceGenerator
+    a = Args.parse(['-r', rp, '-q', qp] + list(extra))
+    with a.referenceFile:
+        refs = CmapReader().readReferences(a.referenceFile, a.referenceIds)
+    with a.queryFile:
+        queries = [q.trim() for q in CmapReader().readQueries(a.queryFile, a.queryIds)]
+    prim = SequenceGenerator(a.primaryResolution, a.primaryBlur)
+    sec = SequenceGenerator(a.secondaryResolution, a.secondaryBlur)
+    res = {}
+    for q in queries:
+        found = []
+        for r in refs:
+            for rev in (False, True):
+                ia = q.getInitialAlignment(r, prim, a.minPeakDistance, a.peaksCount, reverseStrand=rev)
+                found.extend((ia, p) for p in ia.peaks)
+        top = sorted(found, key=lambda t: t[1].score, reverse=True)[:a.peaksCount]
+        lst = []
+        for ia, p in top:
+            sc = ia.refine(p.position, sec, a.secondaryMargin, a.peakHeightThreshold)
+            lst.append([int(sc.reference.moleculeId), bool(sc.reverseStrand), [float(x.position) for x in sc.peaks]])
+        res[int(q.moleculeId)] = lst
+    return res
+
+
+class Seeds(es.E2EStream):
+    """are the candidates of a query built from exactly the seeds the property prescribes?  The captured seeds of the real run (first
+    __align call of every whole query) are compared with an independent recomputation from the public components."""
+    name = 'e2e_seeds'
+    quick_n, thorough_n = 2, 6
+    nq_quick, nq_thorough = 16, 28
+
+    def gen(self, rng, tier):
+        base = seeded_rng(getattr(self, 'seed', 0), 'e2e-shared')
+        sets = [[], ['-p', '6'], ['-p', '1'], ['-p', '2']]
+        n = self.quick_n if tier == 'quick' else self.thorough_n
+        nq = self.nq_quick if tier == 'quick' else self.nq_thorough
+        return [dict(ds_seed=base.randint(1, 10 ** 9), nq=nq, extra=sets[k % len(sets)]) for k in range(n)]
+
+    def impl(self, case):
+        import os
+        out = es.run_dataset(case, modes=['separate'], capture_mode='separate')
+        d = e2e.dataset_dir('ds%d_%d' % (case['ds_seed'], case['nq']))
+        try:
+            out['independent'] = {str(k): v for k, v in independent_seeds(os.path.join(d, 'r.cmap'), os.path.join(d, 'q.cmap'), case['extra']).items()}
+        except Exception as e:
+            out['independent_error'] = type(e).__name__ + ': ' + str(e)[:200]
+        return out
+
+    def oracle(self, case, out):
+        errs = es.run_failures(out)
+        if 'independent_error' in out:
+            return errs + ['independent recomputation of the seeds failed: ' + out['independent_error']]
+        _, qs = es.maps_of(out)
+        got = {}
+        for c in out['capture']:
+            if c['t'] == 'corr' and c['shift'] == 0:
+                got.setdefault((c['pid'], c['q']), {})
+                if c['index'] in got[(c['pid'], c['q'])]:
+                    continue                      # a later __align call for a prefix fragment of the same molecule
+                got[(c['pid'], c['q'])][c['index']] = [c['r'], c['rev'], [float(p) for p in c['peaks']]]
+        byq = {}
+        for (pid, q), d in got.items():
+            byq.setdefault(q, [d[i] for i in sorted(d)])
+        for q, want in sorted(out['independent'].items(), key=lambda kv: int(kv[0])):
+            have = byq.get(int(q), [])
+            if have != want:
+                errs.append('query %s: the candidates were built from seeds %s, but the top peaksCount seed peaks over all references and both strands are %s' % (
+                    q, [(r, '-' if v else '+', len(p)) for r, v, p in have], [(r, '-' if v else '+', len(p)) for r, v, p in want]))
+        return errs[:3]
+
+    def classify(self, case, out):
+        ind = out.get('independent', {})
+        k = ['params=%s' % (' '.join(case['extra']) or 'default'), 'queries=%d' % len(ind)]
+        k.append('max seeds per query=%d' % max([len(v) for v in ind.values()] or [0]))
+        if any(len(set((r, v) for r, v, _ in lst)) > 1 for lst in ind.values()): k.append('seeds on several references/strands')
+        return k
+
+    def nontrivial(self, case, out):
+        return json.dumps(case, sort_keys=True) if any(out.get('independent', {}).values()) else None
+
+
 class RunModel(es.RunModelStream):
     e2e_cls = Files
 
@@ -315,4 +402,4 @@ class RowsRandom(RowsBase):
         return out
 
 
-STREAMS = [RowsExhaustive(), RowsRandom(), Files(), RunModel()]
+STREAMS = [RowsExhaustive(), RowsRandom(), Files(), RunModel(), Seeds()]
